@@ -51,7 +51,7 @@ class PandasPyArrowTransformer(BaseTransformer):
         removes the pandas-specific schema metadata to ensure clean conversion.
         """
         # drop pandas schema metadata
-        pyarrow_table = pa.Table.from_pandas(data)
+        pyarrow_table = pa.Table.from_pandas(data, preserve_index=False)
         schema = pyarrow_table.schema
         metadata = schema.metadata.copy() if schema.metadata else {}
         metadata.pop(b"pandas", None)
